@@ -86,6 +86,62 @@ theorem casesStep_hasExpl (X : SchemaX) (cx : Cx) (choice : STree) (sibs : List 
       exact absurd hzn this
   · exact h.2
 
+/-- the repaired variant keeps an explicit node of the existing case -/
+theorem casesStepFix_hasExpl (X : SchemaX) (cx : Cx) (choice : STree) (sibs : List DNode) (h : HasExpl sibs) :
+    HasExpl (casesStepFix X cx choice sibs).1 := by
+  refine ⟨fun n hn => h.1 n (casesStepFix_sub X cx choice sibs n hn), ?_⟩
+  unfold casesStepFix
+  cases hsc : scanCases (explSibs sibs) choice.kids none none with
+  | none => exact h.2
+  | some p =>
+    obtain ⟨old', new'⟩ := p
+    obtain ⟨_, a2, _, _, a5, a6⟩ := scanCases_some (explSibs sibs) choice.kids none none old' new' hsc
+    cases new' with
+    | some nw =>
+      have hex : ∃ c ∈ choice.kids, caseFound (explSibs sibs) c = 2 := by
+        rcases a6 with a6 | a6
+        · cases a6
+        · exact a6
+      obtain ⟨c, _, hf⟩ := hex
+      obtain ⟨z, hz, hin, hzn⟩ := caseFound_two hf
+      obtain ⟨hzs, hzd⟩ := explSibs_sub hz
+      have hk : z ∈ (delCases X cx (explSibs sibs) 2 choice.kids sibs).1 := by
+        apply delCases_keeps X cx _ 2 z _ sibs hzs
+        intro c' _ hne
+        cases hin' : inSids c'.dataSids z with
+        | false => rfl
+        | true => exact absurd (caseFound_new_inst hz hin' hzn) hne
+      cases old' <;> exact ⟨z, hk, hzd⟩
+    | none =>
+      cases old' with
+      | none => exact h.2
+      | some od =>
+        have hex : ∃ c ∈ choice.kids, caseFound (explSibs sibs) c = 1 := by
+          rcases a5 with a5 | a5
+          · cases a5
+          · exact a5
+        obtain ⟨c, _, hf⟩ := hex
+        obtain ⟨z, hz, hin⟩ := caseFound_one hf
+        obtain ⟨hzs, hzd⟩ := explSibs_sub hz
+        have hk : z ∈ (delCases X cx (explSibs sibs) 1 choice.kids sibs).1 := by
+          apply delCases_keeps X cx _ 1 z _ sibs hzs
+          intro c' hc' hne
+          cases hin' : inSids c'.dataSids z with
+          | false => rfl
+          | true =>
+            rcases caseFound_of_inst hz hin' with h1 | h2
+            · exact absurd h1 hne
+            · have := a2 c' hc' h2
+              cases this
+        exact ⟨z, hk, hzd⟩
+
+theorem casesStepQ_hasExpl (X : SchemaX) (cx : Cx) (choice : STree) (sibs : List DNode) (h : HasExpl sibs) :
+    HasExpl (casesStepQ X cx choice sibs).1 := by
+  unfold casesStepQ
+  split
+  · exact casesStep_hasExpl X cx choice sibs h
+  · exact casesStepFix_hasExpl X cx choice sibs h
+
 mutual
 theorem choiceR_hasExpl_T (X : SchemaX) (cx : Cx) : ∀ (t : STree) (sibs : List DNode), HasExpl sibs →
     HasExpl (choiceRNode X cx t sibs).1 ∧ HasExpl (choiceRCase X cx t sibs).1
@@ -96,7 +152,7 @@ theorem choiceR_hasExpl_T (X : SchemaX) (cx : Cx) : ∀ (t : STree) (sibs : List
       · split
         · exact h
         · dsimp only
-          exact (choiceR_hasExpl_L X cx ks _ (casesStep_hasExpl X cx _ sibs h)).2
+          exact (choiceR_hasExpl_L X cx ks _ (casesStepQ_hasExpl X cx _ sibs h)).2
       · exact h
     · rw [choiceRCase]
       exact (choiceR_hasExpl_L X cx ks sibs h).1
